@@ -53,10 +53,10 @@ fn small_config() -> BoxedStrategy<CbConfig> {
         1usize..=4,
         prop_oneof![Just(20u64), Just(30u64), 20u64..=100],
         prop_oneof![3 => Just(None), 1 => (5u64..=20, prop_oneof![Just(5u8), Just(10u8)]).prop_map(Some)],
-        prop_oneof![12 => Just(0u8), 1 => 1u8..=3],
+        (prop_oneof![12 => Just(0u8), 1 => 1u8..=3], prop::bool::weighted(0.3)),
     )
         .prop_map(
-            |(time_based, size, window_ms, thr20, min, permitted, wait_ms, slow, wait_huge)| CbConfig {
+            |(time_based, size, window_ms, thr20, min, permitted, wait_ms, slow, (wait_huge, listeners))| CbConfig {
                 time_based,
                 size,
                 window_ms,
@@ -69,6 +69,7 @@ fn small_config() -> BoxedStrategy<CbConfig> {
                 idle_slow_rate10: None,
                 wait_huge,
                 classifier_first: false,
+                listeners,
             },
         )
         .boxed()
@@ -165,6 +166,7 @@ fn case_strategy(tier: Tier) -> BoxedStrategy<CbcCase> {
                 idle_slow_rate10: None,
                 wait_huge: 0,
                 classifier_first: false,
+                listeners: false,
             },
             fallback,
             clones: 3,
@@ -673,6 +675,9 @@ async fn interp(case: &CbcCase) -> Verdict {
     }
     if case.fallback {
         v.classes.push("with_fallback");
+    }
+    if cfg.listeners {
+        v.classes.push("event_listeners_registered");
     }
     if cfg.wait_huge > 0 {
         v.classes.push("never_auto_recover_wait");
